@@ -52,7 +52,11 @@ TraceStep ==
                            <<"views-agree.notes", pa.notes = pr.notes>>,
                            <<"effect-visible.abs", (~IsMutating(r.op) \/ oracle) => pa = c>>,
                            <<"effect-visible.rel", (~IsMutating(r.op) \/ oracle) => pr = c>>,
-                           <<"op-raised-stale", ~r.stale_raised>> >>
+                           <<"op-raised-stale", ~r.stale_raised>>,
+                           \* the public duration queries answer what the views hold (-1: the query raised, e.g. on an empty view)
+                           <<"duration-queries-agree", "qdur" \in DOMAIN r.post =>
+                                  /\ (r.post.qdur[1] >= 0 => r.post.qdur[1] = pa.dur)
+                                  /\ (r.post.qdur[2] >= 0 => r.post.qdur[2] = pr.dur)>> >>
         drift == r.bits # <<>> /\ (r.bits[1] # ~st1.absFresh \/ r.bits[2] # ~st1.relFresh)
     IN /\ s' = st1
        /\ last' = r.op
